@@ -189,6 +189,8 @@ def finish(ctx, t0, level="other", explanation="", trusted=None, extra=None, out
     for r, v in sorted(per_rule.items()):
         print("   %-8s %3d/%-3d %s" % (r, v[1], v[0], ctx.rules.get(r, "")[:110]))
     if new:
+        for m in ([ctx.broken] if ctx.broken else []) + ctx.floor_failures:
+            print("note: analysis incomplete: %s" % m)
         return 1
     if ctx.broken or ctx.floor_failures:
         for m in ([ctx.broken] if ctx.broken else []) + ctx.floor_failures:
